@@ -319,6 +319,13 @@ fn default_codes(c: &Conf) -> bool {
     c.codes == [Codes::Gamma, Codes::Unary, Codes::Gamma, Codes::Gamma, Codes::Zeta(3)]
 }
 
+/// Two fixed non-default assignments for which compile-time dispatch is instantiated.
+const STATIC_A1: [Codes; 5] = [Codes::Delta, Codes::Gamma, Codes::Delta, Codes::Delta, Codes::Zeta(5)];
+const STATIC_A2: [Codes; 5] = [Codes::Zeta(2), Codes::Unary, Codes::Gamma, Codes::Delta, Codes::Gamma];
+use dsi_bitstream::dispatch::code_consts as cc;
+type StaticA1 = Static<{ cc::DELTA }, { cc::GAMMA }, { cc::DELTA }, { cc::DELTA }, { cc::ZETA5 }>;
+type StaticA2 = Static<{ cc::ZETA2 }, { cc::UNARY }, { cc::GAMMA }, { cc::DELTA }, { cc::GAMMA }>;
+
 /// Reads the graph at `base` through every path and variant.
 pub fn read_all(base: &Path, c: &Conf, exp: &Graph, ef: &[u64], ks: &[usize]) -> Out {
     let mut out = Out::new();
@@ -326,11 +333,23 @@ pub fn read_all(base: &Path, c: &Conf, exp: &Graph, ef: &[u64], ks: &[usize]) ->
         all_modes!(LE, Dynamic, "dyn", base, exp, ef, ks, out);
         if default_codes(c) {
             all_modes!(LE, Static, "static", base, exp, ef, ks, out);
+        } else if c.codes == STATIC_A1 {
+            all_offsets_modes!(LE, StaticA1, "static1", Mmap, base, exp, ef, ks, out);
+            all_offsets_modes!(LE, StaticA1, "static1", LoadMem, base, exp, ef, ks, out);
+        } else if c.codes == STATIC_A2 {
+            all_offsets_modes!(LE, StaticA2, "static2", Mmap, base, exp, ef, ks, out);
+            all_offsets_modes!(LE, StaticA2, "static2", File, base, exp, ef, ks, out);
         }
     } else {
         all_modes!(BE, Dynamic, "dyn", base, exp, ef, ks, out);
         if default_codes(c) {
             all_modes!(BE, Static, "static", base, exp, ef, ks, out);
+        } else if c.codes == STATIC_A1 {
+            all_offsets_modes!(BE, StaticA1, "static1", Mmap, base, exp, ef, ks, out);
+            all_offsets_modes!(BE, StaticA1, "static1", LoadMem, base, exp, ef, ks, out);
+        } else if c.codes == STATIC_A2 {
+            all_offsets_modes!(BE, StaticA2, "static2", Mmap, base, exp, ef, ks, out);
+            all_offsets_modes!(BE, StaticA2, "static2", File, base, exp, ef, ks, out);
         }
     }
     out
@@ -392,10 +411,12 @@ pub fn run(seed: u64, count: usize, max_n: usize, mode: &str, out: &mut impl Wri
             c.mr = rng.pick(&[1, 2, 3, 5, 50, usize::MAX]);
             c.chunk = rng.range(1, 12);
             if rng.chance(1, 2) { c.zuck = true; }
+            if rng.chance(1, 6) { c.codes = STATIC_A1; } else if rng.chance(1, 6) { c.codes = STATIC_A2; }
             (g, c)
         } else {
             let g = gen_graph(&mut rng, n);
-            let c = Conf::random(&mut rng, n);
+            let mut c = Conf::random(&mut rng, n);
+            if rng.chance(1, 6) { c.codes = STATIC_A1; } else if rng.chance(1, 6) { c.codes = STATIC_A2; }
             (g, c)
         };
         let n = g.len();
